@@ -116,9 +116,11 @@ def _captures(F, env_op, nargs):
         if o.get("k") == "const":
             continue
         q = o.get("p")
-        if q is None or q.get("pr"):
+        if q is None:
             return None
-        if len(_writes(F, q["l"])) != 1 or _addr_taken_mut(F, q["l"]):
+        # the captured place must still hold at the call what it held when the closure was made: a local assigned at most once (a
+        # parameter: never) and never mutably borrowed; a field of such a local moved into the closure is the same field later
+        if len(_writes(F, q["l"])) > 1 or _addr_taken_mut(F, q["l"]):
             return None
     return by_ref, ops
 
@@ -264,6 +266,83 @@ def new_functions(fns, ref):
     return out
 
 
+# ---------------------------------------------------------------------------------------------------------------------------
+# Combinators of Option / Result whose closure is new: written out as the match they stand for, so that the closure's body is
+# then inlined at the (now direct) call like any other new closure.
+#     dest = Option::map(opt, clo)        ->   match opt { Some(x) => dest = Some(clo(x)), None => dest = None }
+#     dest = Option::and_then(opt, clo)   ->   match opt { Some(x) => dest = clo(x),       None => dest = None }
+#     dest = Result::map(res, clo)        ->   match res { Ok(x)  => dest = Ok(clo(x)),    Err(e) => dest = Err(e) }
+#     dest = Result::map_err(res, clo)    ->   match res { Err(e) => dest = Err(clo(e)),   Ok(x)  => dest = Ok(x) }
+#     dest = Result::and_then(res, clo)   ->   match res { Ok(x)  => dest = clo(x),        Err(e) => dest = Err(e) }
+_COMB = {
+    "core::option::Option::<T>::map": ("core::option::Option", 1, "Some", 0, "None", "wrap"),
+    "core::option::Option::<T>::and_then": ("core::option::Option", 1, "Some", 0, "None", "flat"),
+    "core::result::Result::<T, E>::map": ("core::result::Result", 0, "Ok", 1, "Err", "wrap"),
+    "core::result::Result::<T, E>::map_err": ("core::result::Result", 1, "Err", 0, "Ok", "wrap"),
+    "core::result::Result::<T, E>::and_then": ("core::result::Result", 0, "Ok", 1, "Err", "flat"),
+}
+
+
+def _lower_combinator(F, b, g, gname):
+    term = F["blocks"][b]["term"]
+    c = _callee(term)
+    adt, hit_idx, hit_name, miss_idx, miss_name, mode = _COMB[c]
+    subj, clo = term["args"]
+    if subj.get("p") is None:
+        return False
+    sp = term.get("sp")
+    dest, cont = term["dest"], term.get("t")
+    if cont is None:
+        return False
+    L = len(F["locals"])
+    F["locals"].append({"ty": "isize"})                              # L     discriminant
+    F["locals"].append({"ty": "(%s,)" % (g["locals"][2]["ty"] if len(g["locals"]) > 2 else "?")})   # L+1   argument tuple
+    F["locals"].append({"ty": g["locals"][0]["ty"]})                # L+2   closure result
+    NB = len(F["blocks"])
+    b_hit, b_join, b_miss = NB, NB + 1, NB + 2
+    sp_place = dict(subj["p"])
+
+    def payload(idx, name):
+        q = dict(sp_place)
+        q["pr"] = list(q.get("pr", [])) + [{"dc": idx, "n": name}, {"f": 0, "n": "0"}]
+        return q
+    blk = F["blocks"][b]
+    blk["stmts"].append({"k": "assign", "p": {"l": L}, "r": {"k": "discr", "p": sp_place, "adt": adt}, "sp": sp, "inl": True})
+    blk["term"] = {"k": "switch", "a": {"k": "move", "p": {"l": L}}, "ty": "isize", "targets": [[hit_idx, b_hit]], "otherwise": b_miss, "sp": sp}
+    # the closure runs on the payload
+    f_ = {"k": "const", "fn": gname, "resolved": gname, "closures": []}
+    F["blocks"].append({"stmts": [{"k": "assign", "p": {"l": L + 1}, "r": {"k": "agg", "ak": "tuple", "ops": [{"k": "move", "p": payload(hit_idx, hit_name)}]}, "sp": sp, "inl": True}],
+                        "term": {"k": "call", "f": f_, "args": [clo, {"k": "move", "p": {"l": L + 1}}], "arg_tys": [], "dest": {"l": L + 2}, "t": b_join, "sp": sp}})
+    if mode == "wrap":
+        res = {"k": "agg", "ak": "adt", "adt": adt, "vi": hit_idx, "variant": hit_name, "fields": ["0"], "ops": [{"k": "move", "p": {"l": L + 2}}]}
+    else:
+        res = {"k": "use", "a": {"k": "move", "p": {"l": L + 2}}}
+    F["blocks"].append({"stmts": [{"k": "assign", "p": dest, "r": res, "sp": sp, "inl": True}], "term": {"k": "goto", "t": cont, "sp": sp}})
+    if adt.endswith("Option"):
+        other = {"k": "agg", "ak": "adt", "adt": adt, "vi": miss_idx, "variant": miss_name, "fields": [], "ops": []}
+    else:
+        other = {"k": "agg", "ak": "adt", "adt": adt, "vi": miss_idx, "variant": miss_name, "fields": ["0"], "ops": [{"k": "move", "p": payload(miss_idx, miss_name)}]}
+    F["blocks"].append({"stmts": [{"k": "assign", "p": dest, "r": other, "sp": sp, "inl": True}], "term": {"k": "goto", "t": cont, "sp": sp}})
+    return True
+
+
+def lower_combinators(fns, new):
+    n = 0
+    for name, F in fns.items():
+        if F.get("bkind") != "fn":
+            continue
+        b = 0
+        while b < len(F["blocks"]) and len(F["blocks"]) < 6000:
+            t = F["blocks"][b]["term"]
+            if t.get("k") == "call" and _callee(t) in _COMB and len(t.get("args", [])) == 2:
+                cls = [x[3:] if x.startswith("fn:") else x for x in t["f"].get("closures", [])]
+                if len(cls) == 1 and cls[0] in new and fns.get(cls[0], {}).get("defkind") == "Closure" and fns[cls[0]].get("arg_count") == 2:
+                    if _lower_combinator(F, b, fns[cls[0]], cls[0]):
+                        n += 1
+            b += 1
+    return n
+
+
 def _closure_escapes(F, g):
     """is the closure g, created in F, used as anything but the callee of (now inlined) direct calls? It escapes when it (or a
     reference / copy of it) is passed to a call, stored in an aggregate, cast, or returned; reading a captured field is no escape"""
@@ -328,6 +407,9 @@ def inline_new(dicts):
     if not new:
         return done
     pristine = {n: copy.deepcopy(fns[n]) for n in new}
+    lowered = lower_combinators(fns, new)
+    if lowered:
+        done["<combinators written out as matches>"] = lowered
     for _ in range(MAX_ROUNDS):
         changed = False
         for name, F in fns.items():
